@@ -113,6 +113,12 @@ SHARED = ['ilis', 'relation_types', 'ili_statuses', 'lexfiles']
 
 
 def _connect_ro(path):
+    import os
+    if not os.path.exists(path):
+        wn._db.connect()           # create + initialise, then release
+        for c in list(wn._db.pool.values()):
+            c.close()
+        wn._db.pool.clear()
     conn = sqlite3.connect(f'file:{path}?mode=ro', uri=True)
     return conn
 
